@@ -1,2 +1,51 @@
-/- stub: line-protocol driver for C15 (to be written) -/
-def main : IO Unit := pure ()
+/- Line-protocol driver for C15.
+   W <p0> <hex text>   a block parse (fresh document) starting with tracker.position = p0: does the position machinery
+                       throw (uint32 wrap-around), and in which flex start condition?  -> `ok` | `throws <mode>`
+   E                   the computed exception shapes of today's source -/
+import UtapModel.Model.Globals
+import UtapModel.Gen.LexRules
+
+open UtapModel.Pos UtapModel.LexLines UtapModel.Globals
+
+def hexVal (c : Char) : Nat :=
+  if c.toNat ≥ 48 && c.toNat ≤ 57 then c.toNat - 48
+  else if c.toNat ≥ 97 && c.toNat ≤ 102 then c.toNat - 87
+  else if c.toNat ≥ 65 && c.toNat ≤ 70 then c.toNat - 55
+  else 0
+
+def unhex : List Char → List Char
+  | a :: b :: rest => Char.ofNat (hexVal a * 16 + hexVal b) :: unhex rest
+  | _ => []
+
+def modeName : Mode → String
+  | .initial => "INITIAL"
+  | .comment => "comment"
+
+def wrapOp (p0 : Nat) (text : List Char) : String :=
+  let s0 : St := { tr := { line := 0, offset := 0, position := p0 % W, path := "" }, idx := [] }
+  match s0.setPath "/blk" with
+  | .error _ => "throws INITIAL"
+  | .ok s1 =>
+    match runLexemesMode s1 .initial (lexAll UtapModel.LexRulesGen.rules .initial text).1 with
+    | .ok _ => "ok"
+    | .error (_, m) => s!"throws {modeName m}"
+
+def stepLine (line : String) : String :=
+  let ws := (line.trimAscii.toString.splitOn " ").filter (· ≠ "")
+  match ws with
+  | ["W", p0, hex] => wrapOp (p0.toNat?.getD 0) (unhex hex.toList)
+  | ["W", p0] => wrapOp (p0.toNat?.getD 0) []
+  | ["E"] =>
+    let shapes := ["history:position>=2^32"] ++ (if UtapModel.ParseGlobalsGen.yyllocInit then [] else ["history:empty-input-location"])
+    ",".intercalate shapes
+  | _ => "bad-op"
+
+partial def loop (h : IO.FS.Stream) (out : IO.FS.Stream) : IO Unit := do
+  let line ← h.getLine
+  if line.isEmpty then return ()
+  out.putStrLn (stepLine line)
+  loop h out
+
+def main : IO Unit := do
+  let out ← IO.getStdout
+  loop (← IO.getStdin) out
